@@ -18,7 +18,10 @@ RULE = ('index forms = every admissible form of a bounded grammar (ints, slices 
         'shapes (4,), (2,3), (3,2,2); full product with the placement {connect, promotes at 1 and 2 '
         'levels (indices at one or at both levels), auto-IVC, explicit-output source, implicit-state source} plus unit pairs and solver '
         'contexts on a reduced index alphabet, plus solver scaling on the source (scalar and array '
-        'ref/ref0) x placement x unit pair on every 3rd (quick) / every (thorough) index form; '
+        'ref/ref0) x placement (incl. two promotion levels that both carry indices) x unit pair on '
+        'every 3rd (quick) / every (thorough) index form; a resize family: connect()/promotes() '
+        'with negative / slice src_indices given outside of setup x source resized over 2-3 '
+        'set-ups of the same Problem; '
         'non-trivial = model ran and the index selects >= 2 '
         'entries that are not the identity selection or a unit conversion is active; each '
         'configuration is enumerated once')
@@ -168,7 +171,7 @@ def cases(tier, seed):
             if fi % (3 if tier == 'quick' else 1):
                 continue
             for ss in SSCALE:
-                for where in ('connect_p', 'prom2', 'src_explicit', 'src_implicit'):
+                for where in ('connect_p', 'prom2', 'prom2_chain', 'src_explicit', 'src_implicit'):
                     for u in ('none', 'm_cm', 'degC_degF'):
                         if where == 'src_implicit' and u != 'none':
                             continue
@@ -176,7 +179,98 @@ def cases(tier, seed):
                                     'units': u, 'ctx': 'runonce', 'palette': pal, 'sscale': ss})
     for k in range(18):
         out.append({'discrete': k})
+    out += _resize_cases()
     return out
+
+
+# ---------------------------------------------------------------------------------------------
+# resize family: src_indices given OUTSIDE of setup (Group.connect / Group.promotes on the built
+# tree) live across set-ups; the source is resized between two or three set-ups of the same Problem
+
+RESIZE_IDX_1D = [('[-1, -2]', True), ('[0, -1]', True), ('[1, 0]', None), ('S[-2:]', None),
+                 ('S[:2]', None), ('S[-1:-3:-1]', None), ('S[1:3]', None), ('[-3, 2]', None)]
+RESIZE_IDX_2D = [('S[-1, :]', None), ('([-1, -1, 0], [0, 1, 2])', None), ('[-1, -2, 0]', True),
+                 ('S[0, ::-1]', None)]
+RESIZE_SEQ_1D = [[[8], [12]], [[12], [8]], [[8], [8]], [[8], [12], [5]]]
+RESIZE_SEQ_2D = [[[2, 3], [4, 3]], [[4, 3], [2, 3]], [[2, 3], [4, 3], [3, 3]]]
+
+
+def _resize_cases():
+    out = []
+    for api in ('connect', 'promotes'):
+        for idxs, seqs in ((RESIZE_IDX_1D, RESIZE_SEQ_1D), (RESIZE_IDX_2D, RESIZE_SEQ_2D)):
+            for idx, flat in idxs:
+                for seq in seqs:
+                    out.append({'resize': {'api': api, 'idx': idx, 'flat': flat, 'seq': seq}})
+    return out
+
+
+def _resize(case):
+    import openmdao.api as om
+    c = case['resize']
+    idx = eval(c['idx'], {'S': om.slicer})
+    flat = c['flat']
+    cls = 'resize:%s:%s:%s' % (c['api'], c['idx'].replace(' ', ''),
+                               '>'.join('x'.join(map(str, sh)) for sh in c['seq']))
+    vio = []
+
+    def V(what, msg):
+        vio.append({'sig': 'C04:%s:%s' % (what, cls), 'case': case, 'msg': '%s [%s]: %s' % (
+            what, cls, msg)})
+
+    class Src(om.ExplicitComponent):
+        def initialize(self):
+            self.options.declare('shape', default=(8,))
+
+        def setup(self):
+            self.add_output('y', np.zeros(self.options['shape']))
+
+        def compute(self, inputs, outputs):
+            shp = self.options['shape']
+            outputs['y'] = 1.0 + np.arange(int(np.prod(shp)), dtype=float).reshape(shp)
+
+    def pick(full):
+        return np.ravel(full.ravel()[idx] if flat else full[idx])
+    n_in = pick(np.zeros(tuple(c['seq'][0]))).size
+    p = om.Problem(reports=None)
+    m = p.model
+    if c['api'] == 'connect':
+        m.add_subsystem('s', Src(shape=tuple(c['seq'][0])))
+        m.add_subsystem('c', om.ExecComp('z=2*x', x=np.zeros(n_in), z=np.zeros(n_in)))
+        m.connect('s.y', 'c.x', src_indices=idx, flat_src_indices=flat)
+    else:
+        m.add_subsystem('s', Src(shape=tuple(c['seq'][0])), promotes_outputs=[('y', 'x')])
+        m.add_subsystem('c', om.ExecComp('z=2*x', x=np.zeros(n_in), z=np.zeros(n_in)))
+        m.promotes('c', inputs=['x'], src_indices=idx, flat_src_indices=flat)
+    nt = 0
+    buf = io.StringIO()
+    for k, shp in enumerate(c['seq']):
+        shp = tuple(shp)
+        full = 1.0 + np.arange(int(np.prod(shp)), dtype=float).reshape(shp)
+        exp = pick(full)
+        try:
+            with contextlib.redirect_stdout(buf), contextlib.redirect_stderr(buf):
+                m.s.options['shape'] = shp
+                p.setup()
+                p.run_model()
+                seen = np.ravel(m.c._inputs['x'])
+                gv = np.ravel(p.get_val('c.x'))
+                z = np.ravel(p.get_val('c.z'))
+        except Exception as exc:
+            V('resize_raises', 'setup %d with source shape %s: %s: %s' % (
+                k + 1, shp, type(exc).__name__, str(exc)[:200]))
+            break
+        if not np.array_equal(seen, exp):
+            V('resize_input_vector', 'setup %d, source shape %s: the component computed with %s, '
+              'source[src_indices] is %s' % (k + 1, shp, seen.tolist(), exp.tolist()))
+        if not np.array_equal(gv, exp):
+            V('resize_get_val', 'setup %d, source shape %s: get_val gives %s, source[src_indices] '
+              'is %s' % (k + 1, shp, gv.tolist(), exp.tolist()))
+        if not np.array_equal(z, 2.0 * exp):
+            V('resize_computed', 'setup %d, source shape %s: z = %s, expected %s' % (
+                k + 1, shp, z.tolist(), (2.0 * exp).tolist()))
+        nt += int(k > 0)
+    return ('violation' if vio else 'ok_resize'), (0 if vio else nt), vio
 
 
 SSCALE = ['ref_ref0', 'arr_ref_ref0', 'arr_ref', 'arr_ref0']
@@ -351,6 +445,10 @@ def check_case(case):
     if 'discrete' in case:
         oc, nt, vio = _discrete(case['discrete'])
         return {'evals': 1, 'nontrivial': nt, 'outcome': oc, 'violations': vio}
+    if 'resize' in case:
+        oc, nt, vio = _resize(case)
+        return {'evals': len(case['resize']['seq']), 'nontrivial': nt, 'outcome': oc,
+                'violations': vio}
     cls = _cls(case)
     vio = []
 
